@@ -320,3 +320,45 @@ func genReflTwin(r *rng) string {
 	}
 	return fmt.Sprintf("PAIR refltwin %d ## %s ## %s", n, base, v.encode())
 }
+
+// cacheperm (C06): Cacheable is only a permission.  base: a chain with a provider marked
+// Cacheable (nothing stronger); variant: the same chain without that mark.  A chain that binds
+// without the mark binds with it, with the same providers included.
+func init() {
+	streams["cacheperm"] = &stream{gen: genCachePerm, run: runPair}
+}
+
+func genCachePerm(r *rng) string {
+	for {
+		c := genChain(r, chainOpts{moreStatic: r.chance(1, 2)})
+		if r.chance(1, 2) {
+			ifaceSubst(r, c)
+		}
+		strong := aMustCache | aMemoize | aSingleton | aNotCacheable
+		var cands, ifaceCands []int
+		for i, p := range c.provs {
+			if p.shape != 2 || p.annots&strong != 0 || len(p.outs) == 0 || containsInt(p.outs, tcOf(pTerminal)) || p.hasMC {
+				continue // hoisting a fallible injector changes who has to take its error: by design
+			}
+			cands = append(cands, i)
+			for _, t := range p.ins {
+				if pt, ok := tcToPool[t]; ok && pt.iface && t != tcOf(pError) {
+					ifaceCands = append(ifaceCands, i)
+					break
+				}
+			}
+		}
+		if len(ifaceCands) > 0 && r.chance(2, 3) {
+			cands = ifaceCands
+		}
+		if len(cands) == 0 {
+			continue
+		}
+		i := cands[r.intn(len(cands))]
+		c.provs[i].annots |= aCacheable
+		base := c.encode()
+		v := parseChain(base)
+		v.provs[i].annots &^= aCacheable
+		return fmt.Sprintf("PAIR cacheperm %d ## %s ## %s", v.provs[i].pid, base, v.encode())
+	}
+}
